@@ -1,44 +1,23 @@
-"""Single source of truth for MANIFEST.json (run bin/gen_manifest.py after editing)."""
-HOOK_COMMITS = []
+"""Single source of truth for MANIFEST.json (run bin/gen_manifest.py after adding a check).
 
-CLAIMED = {
-    "C28": {
-        "category": "proof",
-        "technique": "Lean 4 theorems over a hand model of ParseError + differential correspondence with lalrpop_util",
-        "text": "All helper laws (map_location incl. FnMut call order, map_token, map_error, From, Display incl. the "
-                "'Expected one of a, b or c' format for lists of any length) are Lean theorems about Model/Err.lean for all "
-                "values; the model is tied to lalrpop-util by an exhaustive small-domain + random differential run each check.",
-        "note": "Trusted: Lean kernel (axioms propext/Classical.choice/Quot.sound only), the hand model's fidelity as far as the "
-                "correspondence run exercises it, Rust's integer Display for locations.",
-    },
-}
+Every claimed property has a module checks/cNN.py with a dict MANIFEST = {category, technique, text, note}.
+Properties without such a module are listed under not_applicable with the reason below."""
+import glob
+import importlib
+import os
+import re
 
-NOT_APPLICABLE = {
-    "C01": "not yet built in this round (machinery under construction; see DESIGN.md §10 build order) — will be claimed once its check exists",
-    "C02": "not yet built in this round (machinery under construction; see DESIGN.md §10 build order) — will be claimed once its check exists",
-    "C03": "not yet built in this round (machinery under construction; see DESIGN.md §10 build order) — will be claimed once its check exists",
-    "C04": "not yet built in this round (machinery under construction; see DESIGN.md §10 build order) — will be claimed once its check exists",
-    "C05": "not yet built in this round (machinery under construction; see DESIGN.md §10 build order) — will be claimed once its check exists",
-    "C06": "not yet built in this round (machinery under construction; see DESIGN.md §10 build order) — will be claimed once its check exists",
-    "C07": "not yet built in this round (machinery under construction; see DESIGN.md §10 build order) — will be claimed once its check exists",
-    "C08": "not yet built in this round (machinery under construction; see DESIGN.md §10 build order) — will be claimed once its check exists",
-    "C09": "not yet built in this round (machinery under construction; see DESIGN.md §10 build order) — will be claimed once its check exists",
-    "C10": "not yet built in this round (machinery under construction; see DESIGN.md §10 build order) — will be claimed once its check exists",
-    "C11": "not yet built in this round (machinery under construction; see DESIGN.md §10 build order) — will be claimed once its check exists",
-    "C12": "not yet built in this round (machinery under construction; see DESIGN.md §10 build order) — will be claimed once its check exists",
-    "C13": "not yet built in this round (machinery under construction; see DESIGN.md §10 build order) — will be claimed once its check exists",
-    "C14": "not yet built in this round (machinery under construction; see DESIGN.md §10 build order) — will be claimed once its check exists",
-    "C15": "not yet built in this round (machinery under construction; see DESIGN.md §10 build order) — will be claimed once its check exists",
-    "C16": "not yet built in this round (machinery under construction; see DESIGN.md §10 build order) — will be claimed once its check exists",
-    "C17": "not yet built in this round (machinery under construction; see DESIGN.md §10 build order) — will be claimed once its check exists",
-    "C18": "not yet built in this round (machinery under construction; see DESIGN.md §10 build order) — will be claimed once its check exists",
-    "C19": "not yet built in this round (machinery under construction; see DESIGN.md §10 build order) — will be claimed once its check exists",
-    "C20": "not yet built in this round (machinery under construction; see DESIGN.md §10 build order) — will be claimed once its check exists",
-    "C21": "not yet built in this round (machinery under construction; see DESIGN.md §10 build order) — will be claimed once its check exists",
-    "C22": "not yet built in this round (machinery under construction; see DESIGN.md §10 build order) — will be claimed once its check exists",
-    "C23": "not yet built in this round (machinery under construction; see DESIGN.md §10 build order) — will be claimed once its check exists",
-    "C24": "not yet built in this round (machinery under construction; see DESIGN.md §10 build order) — will be claimed once its check exists",
-    "C25": "not yet built in this round (machinery under construction; see DESIGN.md §10 build order) — will be claimed once its check exists",
-    "C26": "not yet built in this round (machinery under construction; see DESIGN.md §10 build order) — will be claimed once its check exists",
-    "C27": "not yet built in this round (machinery under construction; see DESIGN.md §10 build order) — will be claimed once its check exists",
-}
+HOOK_COMMITS = ["88071ea verif hooks: cargo feature verif_hooks with read-only text views (automaton export, stage dumps)"]
+
+ALL = [f"C{i:02d}" for i in range(1, 29)]
+CLAIMED = {}
+for path in sorted(glob.glob(os.path.join(os.path.dirname(__file__), "c[0-9][0-9].py"))):
+    name = os.path.basename(path)[:-3]
+    mod = importlib.import_module("checks." + name)
+    m = getattr(mod, "MANIFEST", None)
+    if m:
+        CLAIMED[name.upper()] = m
+
+NOT_BUILT = ("not yet built: the Lean model/theorems and correspondence for this property are still under "
+             "construction (DESIGN.md §10 build order); it will be claimed once its check exists")
+NOT_APPLICABLE = {p: NOT_BUILT for p in ALL if p not in CLAIMED}
